@@ -28,7 +28,7 @@ ASSUMPTIONS = ["generator preconditions from the statement: pin cites followed b
                "expected court id = first exact-normalised citation_string in courts-db, else last prefix match"]
 FLOORS = {"quick": {"extractors_total": 6000, "minimal_forms_checked": 5500, "literal_forms_checked": 6000, "examples_checked": 700,
                     "form:full": 1200, "form:full_parallel": 300, "form:short": 500, "form:supra": 500,
-                    "form:id": 500, "form:journal": 500, "form:law": 400, "form:antecedent_full": 500, "courts_checked": 300, "courts_exhaustive": 1800,
+                    "form:id": 500, "form:journal": 500, "form:law": 400, "form:antecedent_full": 500, "form:document": 500, "document_written_citations": 2500, "courts_checked": 300, "courts_exhaustive": 1800,
                     "pin_cites_checked": 1000},
           "thorough": {"minimal_forms_checked": 45000, "form:full": 80000, "form:full_parallel": 20000,
                        "form:short": 30000, "form:supra": 30000, "form:id": 30000, "form:journal": 30000,
@@ -448,6 +448,31 @@ def check_antecedent_full(rng, rec):
         return fail(rec, "antefull_full_span", case, observed=fs, expected=(len(lead), ce))
 
 
+def check_scenario_doc(rng, rec):
+    """Several written citations of different kinds in one running text (the scenario generator of C05):
+    exactly one citation of the expected kind per written citation, at its written start."""
+    import eyecite.resolve as ER
+    from eyecite.models import ReferenceCitation
+    from vmon.props import c05
+    sc = c05.random_scenario(rng, ER.MAX_OPINION_PAGE_COUNT)
+    case = dict(text=sc.text, form="document")
+    cs = extract(sc.text, rec, case)
+    if cs is None:
+        return
+    rec.ev()
+    rec.nontrivial(sc.text)
+    rec.count("form:document")
+    rec.count("document_written_citations", len(sc.refs))
+    kinds = {"full": "FullCaseCitation", "short": "ShortCaseCitation", "supra": "SupraCitation", "id": "IdCitation"}
+    got = [(M.kind(c), c.span()[0]) for c in cs if not isinstance(c, ReferenceCitation)]
+    want = [(kinds[r[1]], r[0]) for r in sc.refs]
+    if got != want:
+        return fail(rec, "document_citations", case, observed=got[:20], expected=want[:20])
+    if any(isinstance(c, ReferenceCitation) for c in cs):
+        return fail(rec, "document_unexpected_reference", case,
+                    observed=[(c.span(), c.matched_text()) for c in cs if isinstance(c, ReferenceCitation)])
+
+
 def run_courts(spec, rec, rng):
     """EXHAUSTIVE over the parenthetical-safe court strings of courts-db."""
     from eyecite.models import FullCaseCitation, ReferenceCitation
@@ -735,7 +760,7 @@ def run_shard(spec, rec):
     run_courts(spec, rec, rng)
     for k in range(spec["n"]):
         forms = ["check_full"] + (["check_short", "check_supra", "check_id", "check_journal", "check_law",
-                                   "check_antecedent_full"] if k % 2 == 0 else [])
+                                   "check_antecedent_full", "check_scenario_doc"] if k % 2 == 0 else [])
         for fn in forms:
             tag = f"{spec['seed']}-{k}-{fn}"
             rec.c01_tag = (fn, tag)          # lets --replay regenerate exactly this case
